@@ -76,9 +76,16 @@ def print_all(lib, tree, stats=None, prebuf_subset=None):
                 stats.inner += 1
                 if pre < L:
                     stats.cls("growth_exercised")
+        if fmt:
+            # cJSON_bool is an int: every non-zero value means "formatted"
+            for truthy in (2, -1, 256):
+                t = lib.take_text(lib.cJSON_PrintBuffered(tree, pres[len(pres) // 2], truthy))
+                if t != base:
+                    raise Violation("cJSON_PrintBuffered with format flag %d differs from cJSON_Print: %r vs %r" % (truthy, (t or b"")[:120], base[:120]),
+                                    key="variant-disagree")
         n = L + 64
         buf = lib.guard_rw(None, n)
-        ok = lib.cJSON_PrintPreallocated(tree, buf, n, fmt)
+        ok = lib.cJSON_PrintPreallocated(tree, buf, n, 4 if fmt and L % 2 else fmt)
         got = ctypes.string_at(buf) if ok else None
         canary = lib.guard_check(buf)
         lib.guard_release(buf)
